@@ -211,9 +211,19 @@ pub fn run(ws: &[&str]) -> String {
         Some(e) => e,
         None => return BAD.into(),
     };
+    // in half of the cases the redirect URLs do not come from `new` but are read through serde (a configuration file, a stored
+    // client registration): the text that is sent is the text that was configured, either way
+    let via_serde = ws.iter().flat_map(|w| w.bytes()).fold(0xcbf29ce484222325u64, |h, b| (h ^ b as u64).wrapping_mul(0x100000001b3)) >> 29 & 1 == 0;
+    let mk_redirect = |s: String| -> Result<RedirectUrl, ()> {
+        if via_serde {
+            serde_json::from_value::<RedirectUrl>(serde_json::Value::String(s)).map_err(|_| ())
+        } else {
+            RedirectUrl::new(s).map_err(|_| ())
+        }
+    };
     let defred = match defred {
         None => None,
-        Some(s) => match RedirectUrl::new(s) {
+        Some(s) => match mk_redirect(s) {
             Ok(u) => Some(u),
             Err(_) => return BAD.into(),
         },
@@ -344,7 +354,7 @@ pub fn run(ws: &[&str]) -> String {
                         if twice {
                             req = req.set_redirect_uri(Cow::Owned(RedirectUrl::new("https://superseded.example/override".to_string()).unwrap()));
                         }
-                        match RedirectUrl::new(o) {
+                        match mk_redirect(o) {
                             Ok(u) => req = req.set_redirect_uri(Cow::Owned(u)),
                             Err(_) => return BAD.into(),
                         }
@@ -449,7 +459,7 @@ pub fn run(ws: &[&str]) -> String {
                 _ => return BAD.into(),
             };
             match a2 {
-                "A" | "R" | "AF" | "AFR" | "RF" | "RFR" => {
+                "A" | "R" | "AF" | "AFR" | "RF" | "RFR" | "AS" | "RS" => {
                     let client = base_client!(BasicClient).set_revocation_url(url);
                     // the enum variants and the four From conversions (owned / by reference)
                     let tok: StandardRevocableToken = match a2 {
@@ -458,6 +468,14 @@ pub fn run(ws: &[&str]) -> String {
                         "AF" => AccessToken::new(t).into(),
                         "AFR" => (&AccessToken::new(t)).into(),
                         "RF" => RefreshToken::new(t).into(),
+                        // written and read back through the type's own serde impls (a stored queue of tokens still to revoke)
+                        "AS" | "RS" => {
+                            let orig = if a2 == "AS" { StandardRevocableToken::AccessToken(AccessToken::new(t)) } else { StandardRevocableToken::RefreshToken(RefreshToken::new(t)) };
+                            match serde_json::to_string(&orig).ok().and_then(|j| serde_json::from_str::<StandardRevocableToken>(&j).ok()) {
+                                Some(v) => v,
+                                None => return "revocable-token-does-not-survive-its-own-serde".to_string(),
+                            }
+                        }
                         _ => (&RefreshToken::new(t)).into(),
                     };
                     match client.revoke_token(tok) {
@@ -534,8 +552,10 @@ pub fn authurl(ws: &[&str]) -> String {
     // and the authorization endpoint is set last
     let rest_after = ws.iter().flat_map(|w| w.bytes()).fold(0xcbf29ce484222325u64, |h, b| (h ^ b as u64).wrapping_mul(0x100000001b3)) >> 31 & 1 == 0;
     let mut client = BasicClient::new(ClientId::new(id));
+    let via_serde = ws.iter().flat_map(|w| w.bytes()).fold(0xcbf29ce484222325u64, |h, b| (h ^ b as u64).wrapping_mul(0x100000001b3)) >> 29 & 1 == 0;
     if let Some(r) = defred {
-        match RedirectUrl::new(r) {
+        let made = if via_serde { serde_json::from_value::<RedirectUrl>(serde_json::Value::String(r)).map_err(|_| ()) } else { RedirectUrl::new(r).map_err(|_| ()) };
+        match made {
             Ok(u) => client = client.set_redirect_uri(u),
             Err(_) => return BAD.into(),
         }
@@ -567,7 +587,12 @@ pub fn authurl(ws: &[&str]) -> String {
     // in a third of the cases the authorization endpoint is (re)configured conditionally-present: the other public
     // authorize_url, which reports a missing endpoint as an error value, must build the very same request
     let maybe = ws.iter().flat_map(|w| w.bytes()).fold(0xcbf29ce484222325u64, |h, b| (h ^ b as u64).wrapping_mul(0x100000001b3)) >> 13 & 3 == 0;
-    let client_maybe = if maybe { Some(client.clone().set_auth_uri_option(Some(client.auth_uri().clone()))) } else { None };
+    // (the conditional setter comes AFTER another endpoint was set unconditionally: the most recent one is the endpoint)
+    let client_maybe = if maybe {
+        Some(client.clone().set_auth_uri(AuthUrl::new("https://stale.example/authorize?stale=1#stale".to_string()).unwrap()).set_auth_uri_option(Some(client.auth_uri().clone())))
+    } else {
+        None
+    };
     let mut req = match &client_maybe {
         Some(cm) => match cm.authorize_url(|| {
             calls.set(calls.get() + 1);
